@@ -9,6 +9,7 @@
     traverse                         → `travPush`, `travLoop`, `traverse`
     find_variable_paths (+ dfs)      → `varNbrs`, `varDfs`, `findVariablePaths`
     find_all_paths + enumerate_paths → `apScan`, `apLevel`, `apLoop`, `apEnum`, `findAllPaths`
+    neighbors + algorithms/astar.rs  → `neighborsRaw`, `neighborIds`, `astarEdges`, `lightest`, `astarRelax`, `astarLoop`, `astarCost`
 
   The engine keeps, per node, two id lists `node:N:out` / `node:N:in` (creation order, no
   duplicates): a directed edge a→b is in out(a) and in(b); an undirected edge is in out+in of BOTH
@@ -536,5 +537,103 @@ def findVariablePaths (g : Graph) (cfg : VarCfg) (flt : Flt) (src tgt : Nat) : E
       let depths := (List.range (cfg.maxHops + 1)).filter (fun d => lo ≤ d)
       .ok (zero ++ depths.flatMap (fun d =>
         varDfs g cfg flt tgt d src [src] [] (if cfg.allowCycles then [] else [src])))
+
+/-! ### astar_path (algorithms/astar.rs) with the default (zero) heuristic -/
+
+/-- ids `GraphEngine::neighbors(n, None, dir, None)` inserts into its `HashSet`, in order:
+    out-list (`from == n ∧ to ≠ n → to`, else `to == n ∧ from ≠ n → from`), then in-list
+    (`to == n ∧ from ≠ n → from`, else `from == n ∧ to ≠ n → to`) -/
+def neighborsRaw (g : Graph) (dir : Dir) (n : Nat) : List Nat :=
+  (if dir.hasOut then
+    (outEdges g n).filterMap (fun e =>
+      if e.src == n && e.dst != n then some e.dst
+      else if e.dst == n && e.src != n then some e.src
+      else none)
+   else [])
+  ++
+  (if dir.hasIn then
+    (inEdges g n).filterMap (fun e =>
+      if e.dst == n && e.src != n then some e.src
+      else if e.src == n && e.dst != n then some e.dst
+      else none)
+   else [])
+
+/-- the nodes `neighbors` returns: the set, restricted to ids for which `get_node` succeeds.
+    (The engine sorts them by id; A* relaxes them in that order, the model in first-insertion
+    order — the optimal cost does not depend on it.) -/
+def neighborIds (g : Graph) (dir : Dir) (n : Nat) : List Nat :=
+  ((neighborsRaw g dir n).eraseDups).filter (fun v => g.hasNode v)
+
+/-- the edges `get_astar_edge_weight(u, v, ..)` looks at, in order: `node:u:out` for
+    Outgoing/Both, then `node:u:in` for Incoming/Both, kept when they join the two nodes -/
+def astarEdges (g : Graph) (dir : Dir) (u v : Nat) : List Edge :=
+  ((if dir.hasOut then outEdges g u else []) ++ (if dir.hasIn then inEdges g u else [])).filter
+    (fun e => (e.src == u && e.dst == v) || (e.dst == u && e.src == v))
+
+/-- `if best.is_none_or(|(w, _)| weight < w) { best = Some((weight, edge_id)) }`; the weight is the
+    property value or `default_weight = 1` (no negative-weight check in A*) -/
+def lightest : List Edge → Option (Int × Nat) → Option (Int × Nat)
+  | [], best => best
+  | e :: es, none => lightest es (some (e.w, e.id))
+  | e :: es, some (w, i) => if e.w < w then lightest es (some (e.w, e.id)) else lightest es (some (w, i))
+
+/-- `best.unwrap_or((default_weight, 0))` -/
+def astarEdgeWeight (g : Graph) (dir : Dir) (u v : Nat) : Int × Nat :=
+  match lightest (astarEdges g dir u v) none with
+  | some b => b
+  | none => (1, 0)
+
+/-- `closed_set`, `g_scores`, `open_set`; with the zero heuristic `f_score = g_score`, so a heap
+    entry is (g_score, node).  `came_from` is not modelled: which of several optimal paths is
+    returned depends on `HashSet`/`BinaryHeap` tie order; the model answers the cost. -/
+structure AStarSt where
+  closed : List Nat
+  gs : DistMap
+  heap : List (Int × Nat)
+deriving Repr, Inhabited
+
+/-- the `for neighbor in neighbors` loop of one expansion -/
+def astarRelax (g : Graph) (dir : Dir) (cur : Nat) (cost : Int) : List Nat → AStarSt → AStarSt
+  | [], st => st
+  | nb :: rest, st =>
+    if st.closed.contains nb then astarRelax g dir cur cost rest st
+    else
+      let t := cost + (astarEdgeWeight g dir cur nb).1
+      if improves t (lookupDist st.gs nb) then
+        astarRelax g dir cur cost rest { st with gs := (nb, t) :: st.gs, heap := (t, nb) :: st.heap }
+      else astarRelax g dir cur cost rest st
+
+inductive AStarOut
+  | found (cost : Int)
+  | notFound
+  | outOfFuel
+deriving Repr, DecidableEq, Inhabited
+
+/-- `while let Some(current) = open_set.pop()`.  `AStarEntry::cmp` only compares `f_score`: which of
+    several equal entries pops first is unspecified; the model reuses `popMin`'s rule. -/
+def astarLoop (g : Graph) (dir : Dir) (tgt : Nat) : Nat → AStarSt → AStarOut
+  | 0, _ => .outOfFuel
+  | fuel + 1, st =>
+    match popMin st.heap with
+    | none => .notFound
+    | some ((cost, u), heap') =>
+      if st.closed.contains u then astarLoop g dir tgt fuel { st with heap := heap' }
+      else if u == tgt then .found cost
+      else
+        astarLoop g dir tgt fuel
+          (astarRelax g dir u cost (neighborIds g dir u) { st with heap := heap', closed := u :: st.closed })
+
+/-- one pop per push; a node is expanded once and pushes at most `2·|E|` entries -/
+def astarFuel (g : Graph) : Nat := (2 * g.edges.length + 1) * (2 * g.edges.length + 1) + 2
+
+/-- `astar_path(from, to, AStarConfig::new().weight_property(w).direction(dir))`: total weight of the
+    returned path, `none` = `path: None`.  (`from == to` is answered before the existence check.) -/
+def astarCost (g : Graph) (dir : Dir) (src tgt : Nat) : Option Int :=
+  if src == tgt then some 0
+  else if !g.hasNode src || !g.hasNode tgt then none
+  else
+    match astarLoop g dir tgt (astarFuel g) { closed := [], gs := [(src, 0)], heap := [(0, src)] } with
+    | .found c => some c
+    | _ => none
 
 end Neumann.Paths
